@@ -543,3 +543,10 @@ PROPERTIES["C12"]["runs"] += [dict(pkg="accumulation", files=PIPE_FILES, entry="
 PROPERTIES["C12"]["explanation"] += (" Source level (P12): " + PIPE_EXPL + "the two-package programs of the C01 grammar are analysed with -exclude-pkgs naming the dependency or the importer: the excluded package's analysis yields no diagnostic and exports no fact, "
     "and excluding the importer leaves the dependency's report and facts unchanged.")
 PROPERTIES["C12"]["bounds"]["quick"] += "; source level: the two-statement two-package programs x {dependency excluded, importer excluded}"
+
+PROPERTIES["C01"]["runs"] += [
+    dict(pkg="accumulation", files=PIPE_FILES, entry="Harness_P01", name="_parallel_assignment_two_params", quick=dict(params=dict(STMTS=2, COMPOUND=5, SIMPLE=11, CALLEES=10)),
+         thorough=dict(params=dict(STMTS=3, COMPOUND=4, SIMPLE=11, CALLEES=10)), args=dict(sample_every=61, max_samples=12)),
+]
+PROPERTIES["C01"]["bounds"]["quick"] += "; the two-statement programs with parallel assignments (`x, y = y, x`, `x, y = nil, x`) and two-parameter callees (1135)"
+PROPERTIES["C01"]["bounds"]["thorough"] += "; the three-statement programs with parallel assignments and two-parameter callees (9054)"
